@@ -1,12 +1,196 @@
 package appstateexec
 
 import (
+	"context"
+	"errors"
+	"fmt"
+	"math"
+	"sort"
+	"sync"
 	"testing"
+	"testing/synctest"
+	"time"
+
+	"github.com/prometheus/client_golang/prometheus"
+	pb "github.com/prometheus/client_model/go"
+
+	"github.com/obolnetwork/charon/app/health"
 
 	"verifharness/drv"
 )
 
+// health part: the real health.Checker (production periods and windows) on a scripted prometheus.Gatherer.
+//
+// Steps: Hold{n, gerr, sc}: for n scrape periods (30 s) the registry shows the scrape sc = {fams: [{name, type, m: [{lb:
+// [{n, v}], v, hs, hc, b4}], bulk}]} (values in 1/1000 units; bulk: that many further series "k"="<i>" of value 1), or every
+// Gather fails (gerr).  The real gauge app_health_metrics_high_cardinality is part of every scrape, as in production
+// where the Checker scrapes the registry it writes to.
+
+const (
+	hcName     = "app_health_metrics_high_cardinality"
+	checksName = "app_health_checks"
+	failedName = "app_health_checks_failed_total"
+	scrapeStep = 30 * time.Second
+)
+
+type hlEnv struct {
+	*rec
+	t       *testing.T
+	mu      sync.Mutex
+	cur     []*pb.MetricFamily
+	gerr    bool
+	gathers int
+	startU  float64 // unix seconds of the bubble's start
+}
+
+func obj(v any) map[string]any { m, _ := v.(map[string]any); return m }
+func arr(v any) []any          { a, _ := v.([]any); return a }
+
+func milli(v any) float64 { return float64(drv.Num(v)) / 1000 }
+
+// buildFams turns the schedule's description of a scrape into metric families.
+func (e *hlEnv) buildFams(sc map[string]any) []*pb.MetricFamily {
+	var res []*pb.MetricFamily
+	for _, fv := range arr(sc["fams"]) {
+		f := obj(fv)
+		name := drv.Str(f["name"])
+		typ := map[string]pb.MetricType{"gauge": pb.MetricType_GAUGE, "counter": pb.MetricType_COUNTER, "histogram": pb.MetricType_HISTOGRAM}[drv.Str(f["type"])]
+		fam := &pb.MetricFamily{Name: &name, Type: &typ}
+		mk := func(labels []*pb.LabelPair, s map[string]any) *pb.Metric {
+			m := &pb.Metric{Label: labels}
+			switch typ {
+			case pb.MetricType_GAUGE:
+				v := milli(s["v"])
+				if name == "app_start_time_secs" {
+					v += e.startU
+				}
+				m.Gauge = &pb.Gauge{Value: &v}
+			case pb.MetricType_COUNTER:
+				v := milli(s["v"])
+				m.Counter = &pb.Counter{Value: &v}
+			default:
+				sum, cnt, b4, ub := milli(s["hs"]), uint64(drv.Num(s["hc"])), uint64(drv.Num(s["b4"])), 4.0
+				inf := math.Inf(1)
+				m.Histogram = &pb.Histogram{SampleSum: &sum, SampleCount: &cnt,
+					Bucket: []*pb.Bucket{{CumulativeCount: &b4, UpperBound: &ub}, {CumulativeCount: &cnt, UpperBound: &inf}}}
+			}
+
+			return m
+		}
+		for _, sv := range arr(f["m"]) {
+			s := obj(sv)
+			var labels []*pb.LabelPair
+			for _, lv := range arr(s["lb"]) {
+				n, v := drv.Str(obj(lv)["n"]), drv.Str(obj(lv)["v"])
+				labels = append(labels, &pb.LabelPair{Name: &n, Value: &v})
+			}
+			fam.Metric = append(fam.Metric, mk(labels, s))
+		}
+		for i := range drv.Num(f["bulk"]) {
+			n, v := "k", fmt.Sprintf("%04d", i)
+			fam.Metric = append(fam.Metric, mk([]*pb.LabelPair{{Name: &n, Value: &v}}, map[string]any{"v": 1000, "hs": 1000, "hc": 1, "b4": 1}))
+		}
+		res = append(res, fam)
+	}
+
+	return res
+}
+
+func (e *hlEnv) Gather() ([]*pb.MetricFamily, error) {
+	e.mu.Lock()
+	defer e.mu.Unlock()
+	e.gathers++
+	if e.gerr {
+		return nil, errors.New("verif: gather failed")
+	}
+	res := append([]*pb.MetricFamily{}, e.cur...)
+	if f := gather(e.t, hcName)[hcName]; f != nil {
+		res = append(res, f)
+	}
+	sort.Slice(res, func(i, j int) bool { return res[i].GetName() < res[j].GetName() })
+
+	return res, nil
+}
+
+var _ prometheus.Gatherer = (*hlEnv)(nil)
+
+func labelOf(m *pb.Metric, name string) string {
+	for _, l := range m.GetLabel() {
+		if l.GetName() == name {
+			return l.GetValue()
+		}
+	}
+
+	return ""
+}
+
+// observed reads the real gauges back: verdicts by check name, the failure counters, the sticky cardinality gauge.
+func (e *hlEnv) observed() (map[string]bool, map[string]int, []any) {
+	fams := gather(e.t, checksName, failedName, hcName)
+	verdicts, failed := map[string]bool{}, map[string]int{}
+	hc := []any{}
+	if f := fams[checksName]; f != nil {
+		for _, m := range f.GetMetric() {
+			verdicts[labelOf(m, "name")] = m.GetGauge().GetValue() != 0
+		}
+	}
+	if f := fams[failedName]; f != nil {
+		for _, m := range f.GetMetric() {
+			failed[labelOf(m, "name")] = int(m.GetCounter().GetValue())
+		}
+	}
+	if f := fams[hcName]; f != nil {
+		for _, m := range f.GetMetric() {
+			hc = append(hc, drv.Step{"n": labelOf(m, "name"), "v": int(math.Round(m.GetGauge().GetValue() * 1000))})
+		}
+	}
+
+	return verdicts, failed, hc
+}
+
 func runHealth(t *testing.T, tr *drv.Tracer, sid int, sched []drv.Step) (hung bool) {
-	t.Fatalf("not implemented")
+	cfg := sched[0]
+	e := &hlEnv{rec: &rec{start: time.Now()}, t: t}
+	e.startU = float64(e.start.Unix())
+	quorum, nv := drv.Num(cfg["quorum"]), drv.Num(cfg["nv"])
+	_, _, hc0 := e.observed()
+	e.log(drv.Step{"ev": "Reset", "sid": sid, "part": "health", "quorum": quorum, "nv": nv, "hc0": hc0})
+	ctx, cancel := context.WithCancel(context.Background())
+	checker := health.NewChecker(health.Metadata{NumValidators: nv, NumPeers: drv.Num(cfg["np"]), QuorumPeers: quorum}, e, nv)
+	done := make(chan struct{})
+	go func() {
+		checker.Run(ctx)
+		close(done)
+	}()
+	synctest.Wait()
+
+	for _, st := range sched[1:] {
+		if drv.Str(st["ev"]) != "Hold" {
+			t.Fatalf("health: unknown step %v", st)
+		}
+		n := drv.Num(st["n"])
+		sc := obj(st["sc"])
+		e.mu.Lock()
+		e.cur, e.gerr, e.gathers = e.buildFams(sc), st["gerr"] == true, 0
+		e.mu.Unlock()
+		_, before, _ := e.observed()
+		time.Sleep(time.Duration(n) * scrapeStep)
+		synctest.Wait()
+		verdicts, after, hc := e.observed()
+		inc := map[string]int{}
+		for name := range verdicts {
+			inc[name] = after[name] - before[name]
+		}
+		e.mu.Lock()
+		g := e.gathers
+		e.mu.Unlock()
+		e.log(drv.Step{"ev": "Hold", "n": n, "gerr": st["gerr"] == true, "sc": sc, "verdicts": verdicts, "inc": inc, "gathers": g, "hc": hc})
+	}
+	e.log(drv.Step{"ev": "End"})
+	cancel()
+	<-done
+	synctest.Wait()
+	e.flush(tr)
+
 	return false
 }
